@@ -218,52 +218,91 @@ Proof.
       * apply (proj2 (Hinv s Hs')). cbv zeta. lia.
 Qed.
 
+Lemma row0_holds : holds 0 (stored 0).
+Proof.
+  intros s Hs col Hcol Hc0. unfold col in *. cbn [stored Z.of_nat] in *. replace (0 - 1) with (-1) in * by lia.
+  rewrite shift_before_first in *. rewrite Z.add_0_r. rewrite Mf_0. unfold b0.
+  destruct (Z.leb_spec 0 s); [|lia]. cbn [andb].
+  destruct (Z.leb_spec s (Z.of_nat p2b)); destruct (Nat.leb_spec (Z.to_nat s) p2b); try reflexivity; lia.
+Qed.
+
+(* one row of the fill: if the previous row of the array holds row ri of M, the filled row holds row ri + 1 *)
+Lemma fill_row_holds ri prev : 0 <= Z.of_nat ri < l1 -> holds ri prev -> holds (S ri) (fill_row ri prev).
+Proof.
+  intros Hri Hprev.
+  pose proof (lo_nonneg (Z.of_nat ri)) as Hl0.
+  assert (Hband : lo (Z.of_nat ri) <= hi (Z.of_nat ri)).
+  { destruct (band_nonempty l1 l2 window0 (Z.of_nat ri) H1 H2 Hw Hri). lia. }
+  assert (Hinv0 : inner_inv ri (first_col ri) (row_init ri)).
+  { intros s Hs. cbv zeta. unfold first_col. rewrite Z2Nat.id by lia. split; [lia|reflexivity]. }
+  pose proof (fill_cells_inv ri prev Hri Hprev (ncols ri) (first_col ri) (row_init ri)
+                ltac:(unfold first_col; rewrite Z2Nat.id; lia)
+                ltac:(unfold first_col, ncols; rewrite !Z2Nat.id; lia) Hinv0) as Hfin.
+  intros s Hs col Hcol Hc0. unfold col in *. unfold fill_row.
+  replace (Z.of_nat (S ri) - 1) with (Z.of_nat ri) in * by lia.
+  destruct (Hfin s Hs) as [Hin Hout]. cbv zeta in Hin, Hout.
+  assert (Eend : Z.of_nat (first_col ri + ncols ri) = hi (Z.of_nat ri)).
+  { unfold first_col, ncols. rewrite Nat2Z.inj_add, !Z2Nat.id; lia. }
+  rewrite Eend in Hin, Hout.
+  pose proof (shift_nonneg (Z.of_nat ri)) as Hsh0.
+  destruct (Z_lt_le_dec (s + shiftz (Z.of_nat ri) - 1) (lo (Z.of_nat ri))) as [Hbelow|Hge].
+  - rewrite Hout by lia. unfold row_init.
+    destruct (Z.eq_dec (s + shiftz (Z.of_nat ri)) 0) as [E0|E0].
+    + specialize (Hc0 E0). rewrite E0. cbn [Z.to_nat].
+      assert (s = 0) by lia. subst s. cbn [Z.eqb andb].
+      destruct (Z.ltb_spec (Z.of_nat ri) ri2z); [|lia]. symmetry. apply Mf_S_0.
+    + assert (Hpos : 1 <= s + shiftz (Z.of_nat ri)) by lia.
+      replace (Z.to_nat (s + shiftz (Z.of_nat ri))) with (S (Z.to_nat (s + shiftz (Z.of_nat ri) - 1))) by lia.
+      rewrite M_outside; [|lia|rewrite Z2Nat.id; lia].
+      destruct (Z.eqb_spec s 0) as [->|]; [|reflexivity].
+      destruct (Z.ltb_spec (Z.of_nat ri) ri2z) as [Hab|Hab]; [|reflexivity].
+      rewrite (unshifted_above_overlap _ Hab) in *. lia.
+  - destruct (Z_lt_le_dec (s + shiftz (Z.of_nat ri) - 1) (hi (Z.of_nat ri))) as [Hinb|Habove].
+    + apply Hin. lia.
+    + rewrite Hout by lia. unfold row_init.
+      replace (Z.to_nat (s + shiftz (Z.of_nat ri))) with (S (Z.to_nat (s + shiftz (Z.of_nat ri) - 1))) by lia.
+      rewrite M_outside; [|lia|rewrite Z2Nat.id; lia].
+      destruct (Z.eqb_spec s 0) as [->|]; [|reflexivity].
+      destruct (Z.ltb_spec (Z.of_nat ri) ri2z) as [Hab|Hab]; [|reflexivity].
+      rewrite (unshifted_above_overlap _ Hab) in *. lia.
+Qed.
+
 Theorem stored_holds : forall i, Z.of_nat i <= l1 -> holds i (stored i).
 Proof.
-  induction i as [|ri IH]; intros Hi.
-  - intros s Hs col Hcol Hc0. unfold col in *. cbn [stored Z.of_nat] in *. replace (0 - 1) with (-1) in * by lia.
-    rewrite shift_before_first in *. rewrite Z.add_0_r. rewrite Mf_0. unfold b0.
-    destruct (Z.leb_spec 0 s); [|lia]. cbn [andb].
-    destruct (Z.leb_spec s (Z.of_nat p2b)); destruct (Nat.leb_spec (Z.to_nat s) p2b); try reflexivity; lia.
-  - assert (Hri : 0 <= Z.of_nat ri < l1) by lia.
-    pose proof (IH ltac:(lia)) as Hprev.
-    pose proof (lo_nonneg (Z.of_nat ri)) as Hl0.
-    assert (Hband : lo (Z.of_nat ri) <= hi (Z.of_nat ri)).
-    { destruct (band_nonempty l1 l2 window0 (Z.of_nat ri) H1 H2 Hw Hri). lia. }
-    assert (Hinv0 : inner_inv ri (first_col ri) (row_init ri)).
-    { intros s Hs. cbv zeta. unfold first_col. rewrite Z2Nat.id by lia. split; [lia|reflexivity]. }
-    pose proof (fill_cells_inv ri (stored ri) Hri Hprev (ncols ri) (first_col ri) (row_init ri)
-                  ltac:(unfold first_col; rewrite Z2Nat.id; lia)
-                  ltac:(unfold first_col, ncols; rewrite !Z2Nat.id; lia) Hinv0) as Hfin.
-    intros s Hs col Hcol Hc0. unfold col in *. cbn [stored]. unfold fill_row.
-    replace (Z.of_nat (S ri) - 1) with (Z.of_nat ri) in * by lia.
-    destruct (Hfin s Hs) as [Hin Hout]. cbv zeta in Hin, Hout.
-    assert (Eend : Z.of_nat (first_col ri + ncols ri) = hi (Z.of_nat ri)).
-    { unfold first_col, ncols. rewrite Nat2Z.inj_add, !Z2Nat.id; lia. }
-    rewrite Eend in Hin, Hout.
-    destruct (Z_lt_le_dec (s + shiftz (Z.of_nat ri) - 1) (lo (Z.of_nat ri))) as [Hbelow|Hge].
-    + rewrite Hout by lia. unfold row_init.
-      destruct (Z.eq_dec (s + shiftz (Z.of_nat ri)) 0) as [E0|E0].
-      * (* the border column, kept above the left overlap *)
-        specialize (Hc0 E0). rewrite E0. cbn [Z.to_nat].
-        pose proof (shift_nonneg (Z.of_nat ri)) as Hsh0.
-        assert (s = 0) by lia. subst s. cbn [Z.eqb andb].
-        destruct (Z.ltb_spec (Z.of_nat ri) ri2z); [|lia]. symmetry. apply Mf_S_0.
-      * (* a stored slot left of the band *)
-        pose proof (shift_nonneg (Z.of_nat ri)) as Hsh0.
-        assert (Hpos : 1 <= s + shiftz (Z.of_nat ri)) by lia.
-        replace (Z.to_nat (s + shiftz (Z.of_nat ri))) with (S (Z.to_nat (s + shiftz (Z.of_nat ri) - 1))) by lia.
-        rewrite M_outside; [|lia|rewrite Z2Nat.id; lia].
-        destruct (Z.eqb_spec s 0) as [->|]; [|reflexivity].
-        destruct (Z.ltb_spec (Z.of_nat ri) ri2z) as [Hab|Hab]; [|reflexivity].
-        rewrite (unshifted_above_overlap _ Hab) in *. lia.
-    + destruct (Z_lt_le_dec (s + shiftz (Z.of_nat ri) - 1) (hi (Z.of_nat ri))) as [Hinb|Habove].
-      * apply Hin. lia.
-      * rewrite Hout by lia. unfold row_init.
-        replace (Z.to_nat (s + shiftz (Z.of_nat ri))) with (S (Z.to_nat (s + shiftz (Z.of_nat ri) - 1))) by lia.
-        rewrite M_outside; [|lia|rewrite Z2Nat.id; lia].
-        destruct (Z.eqb_spec s 0) as [->|]; [|reflexivity].
-        destruct (Z.ltb_spec (Z.of_nat ri) ri2z) as [Hab|Hab]; [|reflexivity].
-        rewrite (unshifted_above_overlap _ Hab) in *. lia.
+  induction i as [|ri IH]; intros Hi; [exact row0_holds|].
+  cbn [stored]. apply fill_row_holds; [lia|apply IH; lia].
 Qed.
+
+(* ------------------------------------------------------------ the same array with materialised rows (executable:
+   this is what the correspondence check compares with the array the C kernel fills, slot by slot) *)
+Definition slots : list Z := map Z.of_nat (seq 0 (Z.to_nat widthz)).
+Definition of_list (l : list cost) : Z -> cost := fun s => if s <? 0 then Inf else nth (Z.to_nat s) l Inf.
+Definition materialise (f : Z -> cost) : list cost := map f slots.
+
+Lemma of_list_materialise f s : 0 <= s < widthz -> of_list (materialise f) s = f s.
+Proof.
+  intros Hs. unfold of_list, materialise, slots. destruct (Z.ltb_spec s 0); [lia|].
+  rewrite map_map. rewrite nth_indep with (d' := f (Z.of_nat (Z.to_nat s))) by (rewrite map_length, seq_length; lia).
+  rewrite (map_nth (fun x => f (Z.of_nat x)) (seq 0 (Z.to_nat widthz)) (Z.to_nat s) (Z.to_nat s)).
+  rewrite seq_nth by lia. cbn. rewrite Z2Nat.id by lia. reflexivity.
+Qed.
+
+Fixpoint stored_rows (i : nat) : list cost :=
+  match i with
+  | O => materialise (stored 0)
+  | S ri => materialise (fill_row ri (of_list (stored_rows ri)))
+  end.
+
+Lemma holds_ext i f g : (forall s, 0 <= s < widthz -> f s = g s) -> holds i g -> holds i f.
+Proof. intros E H s Hs col Hcol Hc0. rewrite (E s Hs). apply H; assumption. Qed.
+
+Theorem stored_rows_hold : forall i, Z.of_nat i <= l1 -> holds i (of_list (stored_rows i)).
+Proof.
+  induction i as [|ri IH]; intros Hi; cbn [stored_rows].
+  - apply holds_ext with (g := stored 0); [intros s Hs; apply of_list_materialise; exact Hs|exact row0_holds].
+  - apply holds_ext with (g := fill_row ri (of_list (stored_rows ri))); [intros s Hs; apply of_list_materialise; exact Hs|].
+    apply fill_row_holds; [lia|apply IH; lia].
+Qed.
+
+Definition compact_model (r : nat) : list (list cost) := map stored_rows (seq 0 (S r)).
 End FillSim.
